@@ -16,13 +16,13 @@ from parse import match_close, split_top
 
 class VMapSlot(Value):
     """`&mut V` pointing at the value stored under `key` in a VMap located at `mapref`"""
-    __slots__ = ("mapref", "key")
+    __slots__ = ("mapref", "key", "path")
 
-    def __init__(self, mapref, key):
-        self.mapref, self.key = mapref, key
+    def __init__(self, mapref, key, path=()):
+        self.mapref, self.key, self.path = mapref, key, tuple(path)
 
     def __repr__(self):
-        return f"&slot[{self.key}]"
+        return f"&slot[{self.key}]{list(self.path) if self.path else ''}"
 
 
 def some(v):
@@ -135,12 +135,22 @@ class Models:
 
         def load(self_st, ref):
             if isinstance(ref, VMapSlot):
-                return models.slot_load(self_st, ref)
+                v = models.slot_load(self_st, VMapSlot(ref.mapref, ref.key))
+                for i in ref.path:      # a field of the stored value (`item.blob_hash` through `get_mut`)
+                    v = v.fields[i]
+                return v
             return orig_load(self_st, ref)
 
         def store(self_st, ref, val):
             if isinstance(ref, VMapSlot):
                 m = orig_load(self_st, ref.mapref)
+                if ref.path:
+                    whole = models.slot_load(self_st, VMapSlot(ref.mapref, ref.key))
+                    tgt = whole
+                    for i in ref.path[:-1]:
+                        tgt = tgt.fields[i]
+                    tgt.fields[ref.path[-1]] = val
+                    val = whole
                 shape_store(m, ref.key, val)
                 return
             return orig_store(self_st, ref, val)
@@ -150,10 +160,17 @@ class Models:
 
         def place_ref(self_ex, st, fr, p):
             if p[0] == "deref":
-                r = orig_place_ref(self_ex, st, fr, p[1])
+                r = place_ref(self_ex, st, fr, p[1])
+                if isinstance(r, VMapSlot):
+                    raise Unsupported("deref through a field of a map slot")
                 v = st.load(r)
                 if isinstance(v, VMapSlot):
                     return v
+            if p[0] == "field" and p[1][0] != "downcast":
+                r = place_ref(self_ex, st, fr, p[1])
+                if isinstance(r, VMapSlot):
+                    return VMapSlot(r.mapref, r.key, r.path + (p[2],))
+                return VRef(r.cell, r.path + (p[2],))
             return orig_place_ref(self_ex, st, fr, p)
         E.Executor.place_ref = place_ref
 
@@ -338,7 +355,7 @@ class Models:
         R(["BTreeMap::insert", "HashMap::insert"], m_map_insert)
         R(["BTreeMap::remove", "HashMap::remove"], m_map_remove)
         R(["BTreeMap::get", "HashMap::get"], m_map_get)
-        R(["HashMap::get_mut"], m_map_get_mut)
+        R(["HashMap::get_mut", "BTreeMap::get_mut"], m_map_get_mut)
         R(["BTreeMap::contains_key", "HashMap::contains_key"], m_map_contains)
         R(["HashMap::entry", "BTreeMap::entry"], m_map_entry)
         R(["Entry::or_insert_with", "Entry::or_insert_with_key"], m_entry_or_insert_with)
@@ -398,6 +415,10 @@ class Models:
         # -- closures / dyn Fn
         R(["F as FnOnce::call_once", "impl FnMut(WalOp<K>) as FnMut::call_mut", "dyn for<'a> Fn(&'a [BlobHash]) -> Result<(), CasManagerError> as Fn::call"],
           m_call_fnlike)
+        self.prefix_table.append((re.compile(r" as Iterator::partition$"), m_iter_partition))
+        # Clone of std containers (maps, sets, deques): a deep copy of the modelled value
+        self.prefix_table.append((re.compile(r"^(HashMap|HashSet|BTreeSet|BTreeMap|VecDeque) as Clone::clone$"),
+                                  lambda ex, st, fr, c, a, d, r: deref_all(st, a[0]).clone()))
         self.prefix_table.append((re.compile(r" as Fn(Once|Mut)?::call(_once|_mut)?$"), m_call_fnlike))
         self.prefix_table.append((re.compile(r" as IntoIterator::into_iter$"), m_into_iter_any))
         self.prefix_table.append((re.compile(r" as AsRef::as_ref$"), lambda ex, st, fr, c, a, d, r: a[0]))
@@ -1618,6 +1639,34 @@ def iter_collect(ex, st, itv, cont):
     if isinstance(itv, VVec):
         return cont(st, list(itv.elems))
     raise Unsupported(f"iteration over {itv}")
+
+
+def m_iter_partition(ex, st, fr, c, a, d, r):
+    """Iterator::partition(self, f) -> (Vec, Vec): f's MIR runs on every item, fork on the verdict"""
+    f = a[1]
+
+    def run(s, items):
+        fref = VRef(s.alloc(f))
+
+        def step(s2, i, yes, no):
+            if i == len(items):
+                return ex.finish_call(s2, d, r, VStruct("tuple", [VVec(list(yes)), VVec(list(no))]))
+            tmp = VRef(s2.alloc(VUninit()))
+
+            def after(ex2, s3, rv, i=i, yes=yes, no=no):
+                outs = []
+                for cnd, keep in ((rv.t, True), (z3.Not(rv.t), False)):
+                    cs = z3.simplify(cnd)
+                    if z3.is_false(cs) or (not z3.is_true(cs) and not ex2.feasible(s3.pc, cnd)):
+                        continue
+                    s4 = s3.clone()
+                    if not z3.is_true(cs):
+                        s4.pc.append(cnd)
+                    outs += step(s4, i + 1, yes + ([items[i]] if keep else []), no + ([] if keep else [items[i]]))
+                return outs
+            return ex.call_closure(s2, fref, [VRef(s2.alloc(items[i]))], tmp, s2.frames[-1].bb, tag=after)
+        return step(s, 0, [], [])
+    return iter_collect(ex, st, a[0], run)
 
 
 def m_iter_consume(ex, st, fr, c, a, d, r):
